@@ -115,7 +115,9 @@ def conclude(ctx, *, level, violations, evaluations, distinct_nontrivial, rule, 
     ev = dict(property_id=ctx.prop, tier=ctx.tier, seed=int(ctx.seed), level=level,
               coverage=cov, assumptions=assumptions, wall_s=round(time.time() - ctx.t0, 2),
               violations=len(reported))
-    if not getattr(ctx, 'no_evidence', False):     # a --replay run is not a coverage run
+    # (a --replay run is not a coverage run; a run on a scratch copy of the repository -
+    # seeded-change evaluation - does not describe /repo)
+    if not getattr(ctx, 'no_evidence', False) and REPO == '/repo':
         os.makedirs(EVIDENCE, exist_ok=True)
         tmp = os.path.join(EVIDENCE, '.%s.json.tmp' % ctx.prop)
         with open(tmp, 'w') as f:
